@@ -38,7 +38,14 @@ def make_doc(rng, levels, where):
     for i, lv in enumerate(levels):
         if i == pos:
             body.append(toc)
-        h = Header(lv, heading_text(rng, i))
+        if rng.random() < 0.25:
+            # a heading as a loaded document holds it, with blanks of Unicode that are ordinary characters for XML and ODF
+            from odfdo import Element
+
+            txt = rng.choice(["No\u00a0break", "em\u2003 space", "thin\u202fgap \u3000wide", "plain"]) + f" {i}"
+            h = Element.from_tag(f'<text:h text:outline-level="{lv}">{txt}</text:h>')
+        else:
+            h = Header(lv, heading_text(rng, i))
         if rng.random() < 0.4:
             try:
                 h.set_span("T1", offset=rng.randint(0, 3), length=rng.randint(1, 4))
